@@ -1,6 +1,15 @@
-(* C13 line protocol:  rtrace <rel 0|1> <number of libraries> <op>;<op>;...
-   op = n:<ctx>:<p|s|d> | o:<ctx> | w:<ctx>:<k> | i:<ctx>:<lib> | c:<ctx>:<lib> | x:<ctx>
-   answer: one item per op, separated by ';':  <ok 0|1>/<open resource ids ,>/<mapped library ids ,> *)
+(* C13 line protocol:
+   rtrace <rel 0|1> <number of libraries> <op>;<op>;...
+     op = n:<ctx>:<p|s|d> | o:<ctx> | w:<ctx>:<k> | i:<ctx>:<lib> | c:<ctx>:<lib> | x:<ctx>
+     answer: one item per op, separated by ';':  <ok 0|1>/<open resource ids ,>/<mapped library ids ,>
+   strace <number of context ids> <op>;...          (coq/C13/Sig.v)
+     op = n:<ctx> | h:<ctx>:<sig> (install handler) | g:<ctx>:<sig> (ignore) | r:<sig> (raise) | u:<ctx> (run) | x:<ctx>
+     answer per op:  <ok>/<ctx>=<pending .>|<got .>,<ctx>=...
+   ttrace <ncore> <number of context ids> <op>;...  (coq/C13/Tab.v)
+     op = N:<ctx>:<heap units> | R:<ctx>:<name key>:<parent id|-> | I:<ctx>:<name> | D:<ctx>:<name>:<value>
+        | L:<ctx>:<lib>:<types>:<symbols> | X:<ctx> | K:<ctx>:<name> (lookup) | F:<ctx>:<name> (find)
+     answer per op:  <result>/<ctx>=<ntypes>.<cap>.<nsyms>.<nenv>.<nmods>.<globals>.<symtab>.<tarr>.<closed 0|1>,...|<all pairs disjoint 0|1>
+     result = fail | ok | id:<n> | sym:<bucket>:<fresh> | val:<n|-> | found:<0|1> *)
 open Model
 open Common
 
@@ -17,12 +26,77 @@ let op_of s =
   | ["x"; i] -> RDestroy (nat i)
   | _ -> failwith ("bad op " ^ s)
 let ints l = String.concat "," (List.map (fun n -> string_of_int (int_of_nat n)) l)
+let dots l = String.concat "." (List.map (fun n -> string_of_int (int_of_nat n)) l)
+let i2s n = string_of_int (int_of_nat n)
+
+let sop_of s =
+  match String.split_on_char ':' s with
+  | ["n"; i] -> SNew (nat i)
+  | ["h"; i; g] -> SInstall (nat i, nat g)
+  | ["g"; i; g] -> SIgnore (nat i, nat g)
+  | ["r"; g] -> SRaise (nat g)
+  | ["u"; i] -> SRun (nat i)
+  | ["x"; i] -> SDestroy (nat i)
+  | _ -> failwith ("bad signal op " ^ s)
+
+let name_of (s : Stdlib.String.t) : n list =
+  List.init (String.length s) (fun k -> n_of_hex (Printf.sprintf "%x" (Char.code s.[k])))
+
+let top_of s =
+  match String.split_on_char ':' s with
+  | ["N"; i; hs] -> TNew (nat i, nat hs)
+  | ["R"; i; nm; "-"] -> TReg (nat i, nat nm, None)
+  | ["R"; i; nm; p] -> TReg (nat i, nat nm, Some (nat p))
+  | ["I"; i; nm] -> TIntern (nat i, name_of nm)
+  | ["D"; i; nm; v] -> TDefine (nat i, name_of nm, nat v)
+  | ["L"; i; l; nt; ns] -> TLoad (nat i, nat l, nat nt, nat ns)
+  | ["X"; i] -> TDestroy (nat i)
+  | ["K"; i; nm] -> TLookup (nat i, name_of nm)
+  | ["F"; i; nm] -> TFind (nat i, name_of nm)
+  | _ -> failwith ("bad table op " ^ s)
+
+let tres_text = function
+  | XFail -> "fail"
+  | XOk -> "ok"
+  | XId n -> "id:" ^ i2s n
+  | XSym (b, f) -> "sym:" ^ i2s b ^ ":" ^ (if f then "1" else "0")
+  | XVal None -> "val:-"
+  | XVal (Some v) -> "val:" ^ i2s v
+  | XFound b -> "found:" ^ (if b then "1" else "0")
+
+let split_ops ops = List.filter (fun s -> s <> "") (String.split_on_char ';' ops)
+
+(* ttrace by hand (the extracted ttrace gives the observations; closedness / disjointness of the model world are
+   evaluated with the extracted executable invariant ctx_closed / ctxs_disjoint on the same worlds) *)
+let rec ttrace_full ?(k = 0) ncore n pi w =
+  match pi with
+  | [] -> []
+  | o :: r ->
+     (* the executable invariant is evaluated on every 16th world and on the last one (it is quadratic in unary numbers) *)
+     let check = (k mod 16 = 15) || r = [] in
+     let (w', x) = tstep ncore w o in
+     let ids = List.init (int_of_nat n) (fun k -> nat_of_int k) in
+     let live = List.filter_map (fun i -> match w'.tcx i with Some c -> Some (i, c) | None -> None) ids in
+     let one (i, c) =
+       Printf.sprintf "%s=%s.%s.%s.%s.%s.%s.%s.%s.%s" (i2s i) (i2s (List.length c.types |> nat_of_int)) (i2s c.tcap)
+         (i2s (List.length c.syms |> nat_of_int)) (i2s (List.length c.env |> nat_of_int)) (i2s (List.length c.mods |> nat_of_int))
+         (i2s c.globals) (i2s c.symtab) (i2s c.tarr) (if (not check) || ctx_closed c then "1" else "0") in
+     let disj = (not check) || List.for_all (fun (i, c) -> List.for_all (fun (j, d) -> i = j || ctxs_disjoint c d) live) live in
+     (tres_text x ^ "/" ^ String.concat "," (List.map one live) ^ "|" ^ (if disj then "1" else "0")) :: ttrace_full ~k:(k + 1) ncore n r w'
 
 let handle = function
   | ["rtrace"; rel; nl; ops] ->
-     let pi = List.map op_of (List.filter (fun s -> s <> "") (String.split_on_char ';' ops)) in
+     let pi = List.map op_of (split_ops ops) in
      let tr = rtrace (rel = "1") (nat nl) pi rw0 in
      String.concat ";" (List.map (fun (ok, (rs, ls)) -> (if ok then "1" else "0") ^ "/" ^ ints rs ^ "/" ^ ints ls) tr)
+  | ["strace"; n; ops] ->
+     let pi = List.map sop_of (split_ops ops) in
+     let tr = strace (nat n) pi sw0 in
+     String.concat ";" (List.map (fun (ok, cs) ->
+         (if ok then "1" else "0") ^ "/" ^ String.concat "," (List.map (fun (i, (p, g)) -> i2s i ^ "=" ^ dots p ^ "|" ^ dots g) cs)) tr)
+  | ["ttrace"; ncore; n; ops] ->
+     let pi = List.map top_of (split_ops ops) in
+     String.concat ";" (ttrace_full (nat ncore) (nat n) pi tw0)
   | _ -> failwith "unknown request"
 
 let () = serve handle
